@@ -876,3 +876,29 @@ fn write_evidence(ctx: &Ctx, wall: f64, violations: usize) {
 pub fn pick_idx(i: u16, len: usize) -> usize {
     ((i as usize) * len) >> 16
 }
+
+
+/// `fuzz_raw` sub-check: replays every saved raw input under `<verif>/seeds/fuzz/<prop>/` (the
+/// starting corpus of the libFuzzer supplement and any artifact it ever produced) through the same
+/// oracle function the fuzz target uses. Replay files of this sub-check hold the raw bytes.
+pub fn run_fuzz_raw(ctx: &Ctx, entry: impl Fn(&Ctx, &[u8]) -> Verdict + Sync) {
+    let dir = ctx.verif_dir.join("seeds").join("fuzz").join(ctx.prop);
+    let mut files: Vec<std::path::PathBuf> = match std::fs::read_dir(&dir) {
+        Ok(rd) => rd.filter_map(|e| e.ok().map(|e| e.path())).filter(|p| p.is_file()).collect(),
+        Err(_) => vec![],
+    };
+    files.sort();
+    let inputs: Vec<Vec<u8>> = files.iter().filter_map(|p| std::fs::read(p).ok()).collect();
+    run_list(ctx, "fuzz_raw", inputs, |b: &Vec<u8>, case| {
+        case.note = Some(format!("{} raw bytes: {}", b.len(), String::from_utf8_lossy(&b[..b.len().min(120)])));
+        entry(ctx, b)
+    });
+}
+
+/// Context for a libFuzzer target (loads the known findings of the property).
+pub fn fuzz_ctx(prop: &'static str) -> Ctx {
+    panics::install_hook();
+    let verif_dir = std::env::var("VP_VERIF_DIR").map(PathBuf::from).unwrap_or_else(|_| PathBuf::from("/verif"));
+    let a = Args { prop: prop.to_string(), tier: Tier::Thorough, seed: 0, replay: None, verif_dir };
+    new_ctx(prop, &a, Mode::Generate)
+}
